@@ -69,3 +69,259 @@ theorem foldFinish_none (W : World) (f : Fold) (c : Ctx) (computed : List Ctx)
     removeTags_nil, R_bind_eq, R.bind_ok, hpost, applyPostFilters, R_pure_eq, Option.map_none]
 
 end TF.InterpSpec
+
+namespace TF.InterpSpec
+open TF TF.Engine TF.Spec
+
+/-! ### post-filters (`apply_fold_specific_filter`) -/
+
+def optCtx (c : Ctx) (b : Bool) : Option Ctx := if b then some c else none
+
+theorem applyPostFilter_sem (W : World) (f : Fold) (TRef : Name → FieldRef → Prop) (c1 : Ctx)
+    (a1 : Asg) (hsem : TagSem W f.fromVid c1 a1 TRef) {n : Nat}
+    (hc : c1.foldCount? f.eid = some (some n)) (op : FOp) (arg : QArg) (flt : IRFilter)
+    (h : ArgOK W TRef op arg flt) :
+    (applyPostFilter W.env W.comp f flt c1).toOption =
+      (filterHolds W.senv a1 c1.active (.uint64 (UInt64.ofNat n)) op arg).toOption.map (optCtx c1) := by
+  have hsemF := applyFilter_sem W f.fromVid TRef c1 a1 hsem op arg flt h (.uint64 (UInt64.ofNat n))
+  simp only [applyPostFilter, hc, R_bind_eq, R_pure_eq]
+  revert hsemF
+  cases applyFilter W.env W.comp f.fromVid flt [c1.pushValue (.uint64 (UInt64.ofNat n))] with
+  | panic s =>
+    cases filterHolds W.senv a1 c1.active (.uint64 (UInt64.ofNat n)) op arg <;> simp
+  | fuel =>
+    cases filterHolds W.senv a1 c1.active (.uint64 (UInt64.ofNat n)) op arg <;> simp
+  | ok l =>
+    rcases filterHolds W.senv a1 c1.active (.uint64 (UInt64.ofNat n)) op arg with (_ | _) | _ | _ <;>
+      simp [boolCtx, optCtx]
+    · intro h; subst h; rfl
+    · intro h; subst h; rfl
+
+theorem applyPostFilters_sem (W : World) (f : Fold) (TRef : Name → FieldRef → Prop) (c1 : Ctx)
+    (a1 : Asg) (hsem : TagSem W f.fromVid c1 a1 TRef) {n : Nat}
+    (hc : c1.foldCount? f.eid = some (some n)) (pairs : List (FOp × QArg)) (post : List IRFilter)
+    (h : Forall2 (fun p flt => ArgOK W TRef p.1 p.2 flt) pairs post) :
+    (applyPostFilters W.env W.comp f post c1).toOption =
+      (filtersHold W.senv a1 c1.active (.uint64 (UInt64.ofNat n)) pairs).toOption.map (optCtx c1) := by
+  induction h with
+  | nil => simp [applyPostFilters, filtersHold, optCtx]
+  | @cons p flt ps fls hp _ ih =>
+    obtain ⟨op, arg⟩ := p
+    have h1 := applyPostFilter_sem W f TRef c1 a1 hsem hc op arg flt hp
+    simp only [applyPostFilters, filtersHold, R_bind_eq, R_pure_eq]
+    revert h1
+    cases applyPostFilter W.env W.comp f flt c1 with
+    | panic s =>
+      cases filterHolds W.senv a1 c1.active (.uint64 (UInt64.ofNat n)) op arg <;> simp
+    | fuel =>
+      cases filterHolds W.senv a1 c1.active (.uint64 (UInt64.ofNat n)) op arg <;> simp
+    | ok o =>
+      rcases filterHolds W.senv a1 c1.active (.uint64 (UInt64.ofNat n)) op arg with (_ | _) | _ | _ <;>
+        simp [optCtx]
+      · intro h; subst h; rfl
+      · intro h; subst h; exact ih
+
+end TF.InterpSpec
+
+namespace TF.InterpSpec
+open TF TF.Engine TF.Spec
+
+/-! ### fold outputs -/
+
+/-- The column of one output of the fold's component over the element contexts. -/
+def colVal (W : World) (o : OutputDef) (es : List Ctx) : Value :=
+  .list (es.map fun c => W.D.propOpt (look c o.vid) o.field)
+
+/-- The column of one nested fold output over the element contexts. -/
+def nestVal (k : Eid × Name) (es : List Ctx) : Value :=
+  .list (es.filterMap fun c => (lookupFolded c.foldedValues k).map fun ov => ov.getD Value.null)
+
+theorem vertexAt?_eq_look {c : Ctx} {w : Vid} (h : w ∈ keys c) : c.vertexAt? w = some (look c w) := by
+  unfold look Engine.Ctx.vertexAt?
+  obtain ⟨p, hp, hp1⟩ := List.mem_map.1 h
+  cases hf : List.find? (fun x => x.1 == w) c.vertices with
+  | none =>
+    rw [List.find?_eq_none] at hf
+    exact absurd (by simpa using hp1) (hf p hp)
+  | some q => simp
+
+theorem mapR_ok_of_all {α β : Type} {f : α → R β} {g : α → β} {l : List α}
+    (h : ∀ x ∈ l, f x = .ok (g x)) : mapR f l = .ok (l.map g) := by
+  induction l with
+  | nil => rfl
+  | cons x xs ih =>
+    simp [mapR, h x (List.mem_cons_self ..), ih fun y hy => h y (List.mem_cons_of_mem _ hy)]
+
+theorem foldOutputColumn_ok (W : World) (comp : Component) (o : OutputDef) (es : List Ctx)
+    (hV : (comp.vertex? o.vid).isSome) (hk : ∀ c ∈ es, o.vid ∈ keys c) :
+    foldOutputColumn W.env comp o es =
+      .ok (es.map fun c => W.D.propOpt (look c o.vid) o.field) := by
+  obtain ⟨V, hV⟩ := Option.isSome_iff_exists.1 hV
+  simp only [foldOutputColumn, typeOf_of_vertex hV, R.bind_ok]
+  apply mapR_ok_of_all
+  intro c hc
+  rw [vertexAt?_eq_look (hk c hc)]
+  rfl
+
+/-- `foldOutputs` for an existing fold with at least one element. -/
+theorem foldOutputs_cons (W : World) (f : Fold) (e0 : Ctx) (erest : List Ctx)
+    (hV : ∀ o ∈ f.component.outputs, (f.component.vertex? o.vid).isSome)
+    (hk : ∀ o ∈ f.component.outputs, ∀ c ∈ e0 :: erest, o.vid ∈ keys c) :
+    foldOutputs W.env f (some (e0 :: erest)) =
+      .ok (f.fouts.map (fun n => ((f.eid, n), some (Value.uint64 (UInt64.ofNat (e0 :: erest).length)))) ++
+        f.component.outputs.map (fun o => ((f.eid, o.name), some (colVal W o (e0 :: erest)))) ++
+        (fvKeys e0).map fun k => (k, some (nestVal k (e0 :: erest)))) := by
+  simp only [foldOutputs, R_bind_eq, R_pure_eq]
+  rw [mapR_ok_of_all (g := fun o => ((f.eid, o.name), some (colVal W o (e0 :: erest))))]
+  · simp [fvKeys, nestVal]
+  · intro o ho
+    rw [foldOutputColumn_ok W f.component o _ (hV o ho) (hk o ho)]
+    rfl
+
+/-- `foldOutputs` for a fold without elements (`some []`) or a non-existent fold (`none`). -/
+theorem foldOutputs_default (W : World) (f : Fold) (elems : Option (List Ctx))
+    (h : elems = none ∨ elems = some []) :
+    foldOutputs W.env f elems =
+      .ok (f.fouts.map (fun n => ((f.eid, n), elems.map fun es => Value.uint64 (UInt64.ofNat es.length))) ++
+        f.component.outputs.map (fun o => ((f.eid, o.name), elems.map fun _ => Value.list [])) ++
+        (nestedKeys f.component).map fun k => (k, elems.map fun _ => Value.list [])) := by
+  rcases h with rfl | rfl <;> rfl
+
+/-- The folded value found by name after new entries with fresh, distinct names were merged. -/
+theorem valByName_news (c : Ctx) (news : List ((Eid × Name) × Option Value)) (n : Name) (k : Eid)
+    (v : Option Value) (hfresh : n ∉ fvNames c) (hnd : (news.map (·.1.2)).Nodup)
+    (hm : ((k, n), v) ∈ news) :
+    valByName { c with foldedValues := c.foldedValues ++ news } n = v.getD Value.null := by
+  unfold valByName
+  simp only
+  rw [List.find?_append]
+  have h1 : c.foldedValues.find? (fun p => p.1.2 == n) = none := by
+    rw [List.find?_eq_none]
+    intro p hp hpe
+    apply hfresh
+    exact List.mem_map.2 ⟨p, hp, by simpa using hpe⟩
+  rw [h1, Option.none_or]
+  have h2 : news.find? (fun p => p.1.2 == n) = some ((k, n), v) := by
+    induction news with
+    | nil => cases hm
+    | cons p rest ih =>
+      simp only [List.map_cons, List.nodup_cons] at hnd
+      rcases List.mem_cons.1 hm with h | h
+      · subst h; simp
+      · have hne : p.1.2 ≠ n := by
+          intro he
+          apply hnd.1
+          rw [he]
+          exact List.mem_map.2 ⟨((k, n), v), h, rfl⟩
+        simp [List.find?_cons, hne, ih hnd.2 h]
+  rw [h2]
+
+/-- The specification's way of reading an output of an element assignment. -/
+def lookupOut (outs : List (Name × Value)) (n : Name) : Value :=
+  match outs.find? (·.1 == n) with
+  | some (_, x) => x
+  | none => Value.null
+
+/-- Output names appended by an event (up to the order of the two groups of a fold). -/
+def evOutNames (W : World) : Ev → List Name
+  | .vtx w => (W.OG w).map (·.1)
+  | .fold e => W.CO e ++ W.ON e
+
+def outNamesL (W : World) (L : List Ev) : List Name := L.flatMap (evOutNames W)
+
+theorem outsEv_names_perm (W : World) (c : Ctx) (ev : Ev) :
+    ((outsEv W c ev).map (·.1)).Perm (evOutNames W ev) := by
+  cases ev with
+  | vtx w => simp [outsEv, evOutNames, outBinds, Function.comp_def]
+  | fold e =>
+    simp only [outsEv, evOutNames]
+    cases cnt c e with
+    | some k => simp [Function.comp_def]
+    | none =>
+      simp only [List.map_map, Function.comp_def, List.map_id', List.map_append]
+      exact List.perm_append_comm
+
+theorem absL_outNames_perm (W : World) (base : List (Name × Tagged)) (L : List Ev) (c : Ctx) :
+    ((absL W base L c).outs.map (·.1)).Perm (outNamesL W L) := by
+  simp only [absL, outNamesL, List.map_flatMap]
+  induction L with
+  | nil => exact List.Perm.refl _
+  | cons ev rest ih =>
+    simp only [List.flatMap_cons]
+    exact (outsEv_names_perm W c ev).append ih
+
+theorem lookupOut_of_mem {outs : List (Name × Value)} {n : Name} {x : Value}
+    (hn : (outs.map (·.1)).Nodup) (hm : (n, x) ∈ outs) : lookupOut outs n = x := by
+  unfold lookupOut
+  rw [find?_of_mem_nodup hn hm]
+
+theorem absL_out_vtx (W : World) {base : List (Name × Tagged)} {L : List Ev} {c : Ctx} {w : Vid}
+    {n fld : Name} (hn : (outNamesL W L).Nodup) (hm : Ev.vtx w ∈ L) (ho : (n, fld) ∈ W.OG w) :
+    lookupOut (absL W base L c).outs n = W.D.propOpt (look c w) fld := by
+  apply lookupOut_of_mem ((absL_outNames_perm W base L c).nodup_iff.2 hn)
+  simp only [absL, List.mem_flatMap]
+  refine ⟨.vtx w, hm, ?_⟩
+  simp only [outsEv, outBinds, List.mem_map]
+  exact ⟨(n, fld), ho, rfl⟩
+
+theorem absL_out_fold (W : World) {base : List (Name × Tagged)} {L : List Ev} {c : Ctx} {e : Eid}
+    {n : Name} (hn : (outNamesL W L).Nodup) (hm : Ev.fold e ∈ L) (ho : n ∈ W.CO e ++ W.ON e) :
+    lookupOut (absL W base L c).outs n = valByName c n := by
+  apply lookupOut_of_mem ((absL_outNames_perm W base L c).nodup_iff.2 hn)
+  simp only [absL, List.mem_flatMap]
+  refine ⟨.fold e, hm, ?_⟩
+  simp only [outsEv]
+  cases cnt c e with
+  | some k => exact List.mem_map.2 ⟨n, ho, rfl⟩
+  | none => exact List.mem_map.2 ⟨n, by simpa [or_comm] using ho, rfl⟩
+
+theorem find_key_of_find_name (l : List ((Eid × Name) × Option Value)) (k : Eid × Name)
+    (p : (Eid × Name) × Option Value) (h1 : l.find? (fun q => q.1.2 == k.2) = some p)
+    (hpk : p.1 = k) : l.find? (fun q => q.1.1 == k.1 && q.1.2 == k.2) = some p := by
+  induction l with
+  | nil => cases h1
+  | cons q rest ih =>
+    simp only [List.find?_cons] at h1 ⊢
+    by_cases hq : q.1.2 = k.2
+    · have : q = p := by simpa [hq] using h1
+      subst this
+      simp [hpk]
+    · have hq' : (q.1.2 == k.2) = false := by simpa using hq
+      simp only [hq', Bool.and_false] at h1 ⊢
+      exact ih h1
+
+/-- Reading a nested output by its key = reading it by its name (names are distinct). -/
+theorem lookupFolded_eq_valByName (c : Ctx) (k : Eid × Name) (hk : k ∈ fvKeys c)
+    (hn : (fvNames c).Nodup) :
+    (lookupFolded c.foldedValues k).map (fun ov => ov.getD Value.null) = some (valByName c k.2) := by
+  obtain ⟨p, hp, hpk⟩ := List.mem_map.1 hk
+  have h1 : c.foldedValues.find? (fun q => q.1.2 == k.2) = some p := by
+    have := find?_of_mem_nodup (l := c.foldedValues.map fun q => (q.1.2, q)) (k := k.2) (b := p)
+      (by simpa [fvNames, Function.comp_def] using hn)
+      (List.mem_map.2 ⟨p, hp, by rw [hpk]⟩)
+    rw [List.find?_map] at this
+    cases hf : c.foldedValues.find? ((fun x => x.1 == k.2) ∘ fun q => (q.1.2, q)) with
+    | none => simp [hf] at this
+    | some q =>
+      simp only [hf, Option.map_some, Option.some.injEq, Prod.mk.injEq] at this
+      have hfq : c.foldedValues.find? (fun q => q.1.2 == k.2) = some q := hf
+      rw [hfq, this.2]
+  have h2 := find_key_of_find_name c.foldedValues k p h1 hpk
+  unfold lookupFolded valByName
+  rw [h2, h1]
+  rfl
+
+theorem nestVal_eq (k : Eid × Name) (es : List Ctx) (hk : ∀ c ∈ es, k ∈ fvKeys c)
+    (hn : ∀ c ∈ es, (fvNames c).Nodup) :
+    nestVal k es = .list (es.map fun c => valByName c k.2) := by
+  unfold nestVal
+  congr 1
+  induction es with
+  | nil => rfl
+  | cons c rest ih =>
+    rw [List.filterMap_cons,
+      lookupFolded_eq_valByName c k (hk c (List.mem_cons_self ..)) (hn c (List.mem_cons_self ..))]
+    simp only [List.map_cons]
+    rw [ih (fun c' hc' => hk c' (List.mem_cons_of_mem _ hc')) fun c' hc' => hn c' (List.mem_cons_of_mem _ hc')]
+
+end TF.InterpSpec
